@@ -299,6 +299,19 @@ func (p *Path) Call(fn *ssa.Function, args []Value, deferredBy *frame, env []Val
 	if h := p.X.intrinsic(fn); h != nil {
 		return h(p, fn, args)
 	}
+	if h, name := p.X.contract(fn); h != nil {
+		if p.spec > 0 {
+			// preconditions are obligations: not inside speculation
+			if name != "decDigits64" {
+				panic(specAbort{"contract"})
+			}
+		}
+		v, pn := h(p, fn, args)
+		if v != nil || pn != nil {
+			p.X.noteContract(name)
+			return v, pn
+		}
+	}
 	if p.initPkg != nil && fn.Name() == "init" && fn.Pkg != p.initPkg && fn.Synthetic != "" {
 		return nil, nil // imported package initialisers are run separately
 	}
